@@ -863,7 +863,10 @@ class Evaluator:
                 if c2 != T.TRUE:
                     self.pc.append(c2)      # holds until the enclosing scope ends (with_pc truncates)
                 return ov[1] if ov is not None else T.root(('case', xu, 'Some', 0))
-            return T.root(('try', T.unroot(x)))
+            xu = T.unroot(x)
+            if isinstance(xu, tuple) and len(xu) == 2 and xu[0] == 'ok':
+                return xu[1]        # `Ok(v)?` is v
+            return T.root(('try', xu))
         if src == 'ForLoopDesugar':
             return self.ev_forloop(e, env, body, depth)
         scrut = self.ev(e['scrut'], env, body, depth)
@@ -1212,7 +1215,15 @@ class Evaluator:
             by_local.setdefault(a['local'], []).append(a)
         itemr = T.unroot(item)
         if not (isinstance(itemr, tuple) and itemr and itemr[0] == 'item'):
-            return      # destructured / mapped items: not handled
+            # `for y in xs.map(f)`: the values in the loop are written over the item x of xs (y = f(x)); aggregate over xs
+            itb = T.unroot(it)
+            while isinstance(itb, tuple) and itb and itb[0] == 'map' and isinstance(itb[2], tuple) and itb[2][0] == 'lam':
+                itb = T.unroot(itb[1])
+            base_item = ('item', nid)
+            if itb is T.unroot(it) or not isinstance(itb, tuple) or not itb or itb[0] in ('enumerate', 'zip') \
+                    or T.unroot(self.item_of(it, nid)[0]) != itemr:
+                return      # destructured items: not handled
+            it, itemr = itb, base_item
         base_pc = len(self.pc) + len([f for f in facts if f != T.TRUE])
         results = {}
         for lid, asg in by_local.items():
@@ -1703,7 +1714,7 @@ class Evaluator:
                 finally:
                     self.stack.pop()
                 plain = not any(isinstance(y, tuple) and y and y[0] in ('ite', 'match') for y in T.subterms(v)) and \
-                    not any(x['kind'] in ('ret', 'panic', 'assign', 'mutcall', 'unwrap', 'index') for x in self.events[mark:])
+                    not any(x['kind'] in ('ret', 'panic', 'assign', 'mutcall', 'unwrap', 'index') and T.FALSE not in x['pc'] for x in self.events[mark:])
                 own_type = body.raw.get('impl_trait') == e.get('callee_trait')
                 # outside an impl of the trait, only *compositions* are seen through (a value expressed by the same trait's
                 # methods on the components, e.g. Slice / Aggregate); a leaf model (RBF) stays the abstraction the equations
